@@ -55,6 +55,25 @@ pub fn run<A: Cx>(d: &mut Drv<A>, scale: usize, all_offsets: bool) {
                 }
             }
         }
+        // ---- the by-value conversion of a value with a history (truncated / drained / rebuilt)
+        for _ in 0..4 {
+            let k = d.rng.range(1, kmax);
+            let extra = d.rng.range(1, kmax + 3);
+            let tt = d.rand_syms(k + extra);
+            d.emit(json!({"op": "fromsyms", "dst": 10, "c": A::NAME, "via": "iter", "syms": tt}));
+            match d.rng.below(3) {
+                0 => {
+                    d.emit(json!({"op": "truncate", "dst": 10, "n": k}));
+                }
+                1 => {
+                    d.emit(json!({"op": "remove", "dst": 10, "range": {"f": "rf", "a": k, "b": 0}}));
+                }
+                _ => {
+                    d.emit(json!({"op": "remove", "dst": 10, "range": {"f": "rt", "a": 0, "b": extra}}));
+                }
+            }
+            d.emit(json!({"op": "tointtake", "r": 10}));
+        }
         // ---- decoding integers as k-mers (values below 2^(K*w), canonical patterns)
         for &k in &[1usize, 2, 3, kmax / 2, kmax - 1, kmax] {
             if k == 0 || !crate::kd::KS.contains(&k) {
